@@ -66,7 +66,7 @@ def _work(item):
                 err = None
             except BaseException as e:  # noqa: BLE001
                 err = (common.classify_exc(e), common.exc_site(e), str(e)[:200])
-            if err is not None and err[0] not in ("OperationNotSupportedError",):
+            if err is not None and err[0] not in ("OperationNotSupportedError",) and c.family != "elementwise_arity":
                 # a failure caused by a read-only / non-contiguous argument is a violation; others belong to C01/C03
                 base = implrun.run_call(c, b, graph=graph)
                 if base[0] != "exc":
@@ -117,6 +117,23 @@ def run(ctx):
         for layout in LAYOUTS:
             items.append((c, layout, ctx.rng.randrange(1 << 30)))
         ctx.distinct.add(c.op + "|" + c.desc)
+        if c.family == "elementwise" and " -> " in c.desc:
+            # one operand too many (or too few): whatever the outcome, no argument may be written to
+            c2 = copy.copy(c)
+            ins, out = c.desc.split(" -> ")
+            parts = ins.split(", ")
+            if ctx.rng.random() < 0.75:
+                j = ctx.rng.randrange(len(parts))
+                c2.desc = ", ".join(parts + [parts[j]]) + " -> " + out
+                c2.arrays = list(c.arrays) + [np.array(c.arrays[j])]
+            elif len(parts) > 1:
+                c2.desc = ", ".join(parts[:-1]) + " -> " + out
+                c2.arrays = list(c.arrays[:-1])
+            c2.family = "elementwise_arity"
+            fam[c2.family] = fam.get(c2.family, 0) + 1
+            for layout in ("contiguous", "readonly"):
+                items.append((c2, layout, ctx.rng.randrange(1 << 30)))
+            ctx.distinct.add(c2.op + "|" + c2.desc)
     res = common.pmap(_work, items)
     for viol in res:
         for tags, payload in viol:
